@@ -13,6 +13,7 @@ def run(facts, tier):
         ("special members", c19_rules.special_members, 100, "every own field is handled by every user-written copy/move constructor/assignment, with the right peer; raw pointers are nulled in the moved-from object"),
         ("allocate/deallocate pairing", c19_rules.alloc_pairing, 30, "deallocate sizes equal allocate sizes per owning field / local; deleters use their constructed count"),
         ("assignment fast paths", c19_rules.assign_fast_paths, 22, "every early-returning branch of a user-written assignment operator (other than the self test) brings every field over"),
+        ("engaged flag", c19_rules.engaged_flag, 4, "the engaged flag of optional<T> changes only next to the construction / destruction of the stored value and is never copied from another object"),
         ("assignment safety", c19_rules.assign_safety, 8, "copy assignment reads the source before releasing owned members, or guards self-assignment"),
         ("cache invalidation", quantile_rules.cache_invalidation, 9, "assignments and mutators invalidate the cached sorted view (a moved/copied-into sketch must not keep a view of its old contents)"),
         ("raw slot flag", c19_rules.raw_slot_flag, 5, "var_opt: whenever data_ receives fresh raw memory the all-slots-constructed flag is false on return"),
